@@ -1,4 +1,5 @@
 import FrappyProofs.Lemmas.Update
+import FrappyProofs.Lemmas.UpdateSys
 /-
 C05 — property theorems (nothing but property theorems and their non-vacuity examples).
 -/
@@ -12,16 +13,8 @@ variable {V E : Type} [DecidableEq E]
 /-- Replaying the emitted messages over the initial value-or-error gives the cached value-or-error —
 for every entry, every oracle under `EqExact`, every history of calls and clock readings. -/
 theorem replay_eq_cache (o : Oracle V E) (h : EqExact o) (e : Entry V E) (evs : List (TEv V E)) :
-    replay e.ve ((run o e evs).msgs.map (·.ve)) = (run o e evs).entry.ve := by
-  unfold run
-  generalize evs.map (TEv.resolve o) = xs
-  induction xs generalizing e with
-  | nil => simp [runR, replay]
-  | cons x xs ih =>
-    simp only [runR, List.map_append, replay_append, replay_toList]
-    rw [← ih]
-    congr 1
-    rw [announceR_ve o h]
+    replay e.ve ((run o e evs).msgs.map (·.ve)) = (run o e evs).entry.ve :=
+  replay_runR o h e _
 
 /-- … and this holds after every prefix of the history (the client never diverges from the cache). -/
 theorem reconstructs (o : Oracle V E) (h : EqExact o) (e : Entry V E) (evs : List (TEv V E)) :
@@ -102,7 +95,7 @@ theorem recovery_announced (o : Oracle V E) (e : Entry V E) (now : Int) (ev : Ev
     ∃ m, (announce o e now ev).msg = some m ∧ m.ve = .val v := by
   obtain ⟨x, hx⟩ := Option.ne_none_iff_exists'.1 herr
   unfold announce announceR
-  rw [hok, decide_recovery o e now v x hx]
+  rw [hok, emits_recovery o e now v x hx]
   simp [mkMsg]
 
 /-- the same over whole histories, in the words of the specification -/
@@ -132,9 +125,171 @@ theorem change_announced (o : Oracle V E) (e : Entry V E) (now : Int) :
     (∀ v, o.veq e.value v = false → (announceR o e now (.val v)).msg ≠ none) ∧
     (∀ x, e.readerror ≠ some x → (announceR o e now (.err x)).msg ≠ none) := by
   constructor
-  · intro v hv; unfold announceR; rw [decide_changed o e now v hv]; simp
-  · intro x hx; unfold announceR; rw [decide_error o e now x hx]; simp
+  · intro v hv; unfold announceR; rw [emits_changed o e now v hv]; simp
+  · intro x hx; unfold announceR; rw [emits_error o e now x hx]; simp
 
 end sequential
+
+
+section concurrent
+open Frappy.UpdateSys
+variable {V E : Type} [DecidableEq E]
+
+/-- Mutual exclusion: at most one thread is between `acquire` and `release` of the module's update lock. -/
+theorem one_thread_inside (c : Cfg V E) (init : Pid → Entry V E) (progs : Tid → List (Op V E)) (clock : Int)
+    (s : Sys V E) (hn : c.conns.Nodup) (hr : Reach c (Sys.init init progs clock) s) (t t' : Tid)
+    (ht : (s.thr t).pc ≠ .idle) (ht' : (s.thr t').pc ≠ .idle) : t = t' := by
+  have hi := inv_reach hn hr
+  have h1 := owner_of_busy hi t ht
+  have h2 := owner_of_busy hi t' ht'
+  rw [h1] at h2
+  exact Option.some.inj h2
+
+/-- For every schedule of any number of threads, in every reachable state, what an activated connection has
+received for a parameter is the message list of a sequential run of the funnel on that parameter: the run of
+the calls completed so far (`s.hist p`, in the order the lock was released), followed by the call in flight
+if this connection has already been notified of it. -/
+theorem interleaving_atomic (c : Cfg V E) (init : Pid → Entry V E) (progs : Tid → List (Op V E)) (clock : Int)
+    (s : Sys V E) (hn : c.conns.Nodup) (hr : Reach c (Sys.init init progs clock) s)
+    (k : Cid) (hk : k ∈ c.conns) (p : Pid) :
+    ∃ evs : List (REv V E), plog s k p = (runR c.o (init p) evs).msgs ∧
+      (evs = s.hist p ∨ ∃ x, evs = s.hist p ++ [x]) := by
+  have hi := inv_reach hn hr
+  have clean : Clean c init s p → ∃ evs : List (REv V E), plog s k p = (runR c.o (init p) evs).msgs ∧
+      (evs = s.hist p ∨ ∃ x, evs = s.hist p ++ [x]) := fun h => ⟨s.hist p, h.2 k hk, Or.inl rfl⟩
+  cases hl : s.lock with
+  | none => exact clean ((hi.unlocked hl).2 p)
+  | some t =>
+    obtain ⟨_, p', hp', hcl, hmid⟩ := hi.locked t hl
+    by_cases hpp : p = p'
+    · subst hpp
+      have same : plog s k p = (seqRun c init s p).msgs → ∃ evs : List (REv V E),
+          plog s k p = (runR c.o (init p) evs).msgs ∧ (evs = s.hist p ∨ ∃ x, evs = s.hist p ++ [x]) :=
+        fun h => ⟨s.hist p, h, Or.inl rfl⟩
+      cases hpc : (s.thr t).pc with
+      | idle => rw [hpc] at hp'; cases hp'
+      | locked _ _ => rw [hpc] at hmid; exact same (hmid.2 k hk)
+      | timed _ _ _ => rw [hpc] at hmid; exact same (hmid.2 k hk)
+      | compared _ _ _ _ => rw [hpc] at hmid; exact same (hmid.2.2 k hk)
+      | stored _ _ _ _ => rw [hpc] at hmid; exact same (hmid.2.2 k hk)
+      | go _ _ _ => rw [hpc] at hmid; exact same (hmid.2.2 k hk)
+      | stamped _ _ _ => rw [hpc] at hmid; exact same (hmid.2.2 k hk)
+      | errset _ _ _ => rw [hpc] at hmid; exact same (hmid.2.2 k hk)
+      | sending _ now r m rest =>
+        rw [hpc] at hmid
+        obtain ⟨h1, h2, h3, done, h4, h5, h6⟩ := hmid
+        rw [h4, List.mem_append] at hk
+        rcases hk with hk | hk
+        · refine ⟨s.hist p ++ [⟨now, r⟩], ?_, Or.inr ⟨_, rfl⟩⟩
+          have h2' : emits c.o (runR c.o (init p) (s.hist p)).entry now r = true := h2
+          simp only [runR_snoc, announceR_go _ _ _ _ h2']
+          have := h5 k hk
+          simp only at this
+          rw [this, h3, h1]; rfl
+        · exact same (h6 k hk)
+      | leaving _ now r =>
+        rw [hpc] at hmid
+        refine ⟨s.hist p ++ [⟨now, r⟩], ?_, Or.inr ⟨_, rfl⟩⟩
+        rw [runR_snoc]
+        exact hmid.2 k hk
+    · exact clean (hcl p hpp)
+
+/-- When no call is in flight, cache and logs of every parameter are exactly those of the sequential run of
+the completed calls. -/
+theorem quiescent_is_sequential (c : Cfg V E) (init : Pid → Entry V E) (progs : Tid → List (Op V E)) (clock : Int)
+    (s : Sys V E) (hn : c.conns.Nodup) (hr : Reach c (Sys.init init progs clock) s) (hq : s.lock = none) (p : Pid) :
+    s.entries p = (runR c.o (init p) (s.hist p)).entry ∧
+    ∀ k ∈ c.conns, plog s k p = (runR c.o (init p) (s.hist p)).msgs :=
+  ((inv_reach hn hr).unlocked hq).2 p
+
+/-- The statement for any number of threads and any schedule: at quiescence, replaying what a connection
+received reproduces the cache; every message was delivered while the cache held the state it carries; all
+activated connections received the same sequence. -/
+theorem conc_ok [DecidableEq V] (c : Cfg V E) (h : EqExact c.o) (init : Pid → Entry V E) (progs : Tid → List (Op V E))
+    (clock : Int) (s : Sys V E) (hn : c.conns.Nodup) (hr : Reach c (Sys.init init progs clock) s)
+    (hq : s.lock = none) (p : Pid) :
+    ConcOk (S := VE V E) ⟨(init p).ve, c.conns.map (fun k => (s.logs k p).map (fun d => ⟨d.msg.ve, d.seen⟩)),
+      (s.entries p).ve⟩ := by
+  have hi := inv_reach hn hr
+  obtain ⟨he, hlg⟩ := quiescent_is_sequential c init progs clock s hn hr hq p
+  have hmap : ∀ k, ((s.logs k p).map (fun d => (⟨d.msg.ve, d.seen⟩ : Delivered (VE V E)))).map (·.msg) =
+      (plog s k p).map (·.ve) := by
+    intro k; simp [plog, List.map_map, Function.comp_def]
+  refine ⟨?_, ?_, ?_⟩
+  · intro l hl
+    simp only [List.mem_map] at hl
+    obtain ⟨k, hk, rfl⟩ := hl
+    rw [hmap, hlg k hk, he]
+    exact replay_runR c.o h (init p) (s.hist p)
+  · intro l hl d hd
+    simp only [List.mem_map] at hl
+    obtain ⟨k, _, rfl⟩ := hl
+    simp only [List.mem_map] at hd
+    obtain ⟨d', hd', rfl⟩ := hd
+    exact hi.seenOk k p d' hd'
+  · intro l hl l' hl'
+    simp only [List.mem_map] at hl hl'
+    obtain ⟨k, hk, rfl⟩ := hl
+    obtain ⟨k', hk', rfl⟩ := hl'
+    rw [hmap, hmap, hlg k hk, hlg k' hk']
+
+end concurrent
+
+/-! ## non-vacuity -/
+section examples
+open Frappy.UpdateSys
+
+/-- values and errors are numbers, `!=` is inequality, every conversion succeeds -/
+def exO : Oracle Nat Nat := ⟨fun a b => a == b, fun v => .ok v, fun v => .ok v⟩
+
+example : EqExact exO := by intro a b h; simpa [exO] using h
+
+def exE : Entry Nat Nat := ⟨5, none, 100, 10⟩
+
+/-- read 5 inside the window (suppressed), error 1, error 1 again (suppressed), recovery with the same value 5
+inside the window (announced), 6 (announced), 6 outside the window (announced) -/
+def exHist : List (TEv Nat Nat) :=
+  [⟨101, .value 5 false⟩, ⟨102, .error 1⟩, ⟨103, .error 1⟩, ⟨104, .value 5 true⟩, ⟨105, .value 6 false⟩,
+   ⟨120, .value 6 false⟩]
+
+example : (run exO exE exHist).msgs.map (·.ve) = [.err 1, .val 5, .val 6, .val 6] := by decide
+example : (run exO exE exHist).entry.ve = .val 6 := by decide
+example : exE.readerror = none ∧ (announce exO exE 101 (.error 1)).entry.readerror ≠ none := by decide
+
+/-- without `EqExact` the statement fails: if `!=` does not tell 5 and 7 apart, a read of 7 inside the window
+replaces the cached 5 silently -/
+theorem replay_eq_cache_needs_exact :
+    ∃ (o : Oracle Nat Nat) (e : Entry Nat Nat) (evs : List (TEv Nat Nat)),
+      replay e.ve ((run o e evs).msgs.map (·.ve)) ≠ (run o e evs).entry.ve :=
+  ⟨⟨fun _ _ => true, fun v => .ok v, fun v => .ok v⟩, exE, [⟨101, .value 7 false⟩], by decide⟩
+
+def exCfg : Cfg Nat Nat := ⟨exO, [1, 2], 1⟩
+def exProgs : Tid → List (Op Nat Nat)
+  | 0 => [.accAcquire, .announce 0 (.value 6 false), .accRelease]
+  | 1 => [.announce 0 (.error 1)]
+  | _ => []
+def exInit : Pid → Entry Nat Nat := fun _ => exE
+def exS0 : Sys Nat Nat := Sys.init exInit exProgs 101
+
+/-- thread 0 takes the access lock and the update lock, thread 1 is blocked at `acquire` (its step is not
+enabled) until thread 0 has notified both connections and released -/
+def exSched : List Tid := List.replicate 13 0 ++ List.replicate 10 1 ++ [0]
+
+example : (runSched exCfg exS0 exSched).map (fun s => ((s.logs 1 0).map (·.msg.ve), (s.logs 2 0).map (·.msg.ve),
+    (s.entries 0).ve, s.lock)) = some ([.val 6, .err 1], [.val 6, .err 1], .err 1, none) := by decide
+example : (runSched exCfg exS0 [0, 0, 1]).isNone = true := by decide
+
+/-- the hypotheses of the concurrent theorems are satisfiable by a state with a non-trivial log -/
+example : ∃ s, Reach exCfg exS0 s ∧ s.lock = none ∧ (s.logs 1 0).map (·.msg.ve) = [.val 6, .err 1] := by
+  have hd : (runSched exCfg exS0 exSched).map (fun s => (s.lock, (s.logs 1 0).map (·.msg.ve))) =
+      some (none, [.val 6, .err 1]) := by decide
+  cases h : runSched exCfg exS0 exSched with
+  | none => rw [h] at hd; cases hd
+  | some s =>
+    rw [h] at hd
+    simp only [Option.map_some, Option.some.injEq, Prod.mk.injEq] at hd
+    exact ⟨s, reach_of_runSched _ _ _ _ .start _ h, hd.1, hd.2⟩
+
+end examples
 
 end Frappy.Props.C05
